@@ -1107,6 +1107,21 @@ func findAllIndex(pat, name string, n int) [][]int {
 	return rx.FindAllStringIndex(name, n)
 }
 
+// findAnchoredIndex returns the location of the match of pat
+// at the start of name, or at its end if atEnd is set.
+func findAnchoredIndex(pat, name string, atEnd bool) []int {
+	expr, err := pattern.Regexp(pat, 0)
+	if err != nil {
+		return nil
+	}
+	if atEnd {
+		expr = "(?:" + expr + ")$"
+	} else {
+		expr = "^(?:" + expr + ")"
+	}
+	return regexp.MustCompile(expr).FindStringIndex(name)
+}
+
 var (
 	rxGlobStar        = regexp.MustCompile(`^[^/.][^/]*$`)
 	rxGlobStarDotGlob = regexp.MustCompile(`^[^/]*$`)
